@@ -3,6 +3,7 @@ package main
 import (
 	"bytes"
 	"fmt"
+	"strings"
 
 	"golang.org/x/crypto/blake2b"
 
@@ -24,7 +25,7 @@ func hashMsg(r *vh.Rng, i int) []byte {
 	case 1:
 		return r.Bytes(1)
 	case 2:
-		return r.Bytes(4096 + r.Intn(3000))
+		return r.Bytes(1500 + r.Intn(3000))
 	case 3:
 		return r.Bytes(32)
 	case 4:
@@ -86,7 +87,11 @@ func hashcomCase(r *runner, i int) {
 	add := func(name string, k2, c2, m2, w2 []byte) {
 		vs = append(vs, hvariant{name, k2, c2, m2, w2})
 	}
-	for _, p := range bitPositions(rng, 256, r.a.Tier, 8) {
+	nb := 8
+	if len(msg) > 1000 && r.a.Tier != "thorough" {
+		nb = 2
+	}
+	for _, p := range bitPositions(rng, 256, r.a.Tier, nb) {
 		add(fmt.Sprintf("key-bit-%d", p), flipBit(k, p), c, msg, w)
 		add(fmt.Sprintf("wit-bit-%d", p), k, c, msg, flipBit(w, p))
 		add(fmt.Sprintf("com-bit-%d", p), k, flipBit(c, p), msg, w)
@@ -94,6 +99,9 @@ func hashcomCase(r *runner, i int) {
 	mq := 8
 	if len(msg) <= 64 {
 		mq = 16
+	}
+	if len(msg) > 1000 {
+		mq = 4
 	}
 	for _, p := range bitPositions(rng, 8*len(msg), r.a.Tier, mq) {
 		if r.a.Tier == "thorough" && len(msg) > 64 && p%61 != 0 && p != 8*len(msg)-1 {
@@ -140,8 +148,12 @@ func hashcomCase(r *runner, i int) {
 		}
 		// phase A: the model's frame, hashed by Go's own BLAKE2b
 		r.ask(fmt.Sprintf("HF %s %s %s %s", vid, vh.Hex(v.k), vh.Hex(v.m), vh.Hex(v.w)), func(out string) {
-			var fk, fi string
-			fmt.Sscanf(out, "%s %s", &fk, &fi)
+			ff := strings.Fields(out)
+			if len(ff) != 2 {
+				r.corr(vid, "hashcom-frame", "model returned no frame: "+out, cse, "correspondence hashcom frame", false)
+				return
+			}
+			fk, fi := ff[0], ff[1]
 			dg := blake(vh.UnHex(fk), vh.UnHex(fi))
 			if v.name == "honest" && !bytes.Equal(dg, c) {
 				r.corr(vid, "hashcom-commitment-bytes", fmt.Sprintf("library commitment %s, BLAKE2b-256(key)(model frame) %s", vh.Hex(c), vh.Hex(dg)), cse,
